@@ -1132,9 +1132,9 @@ Proof.
 Qed.
 
 (** binary64: smallest positive subnormal 2^-1074 (half of it: 2^-1075), smallest positive
-    normal 2^-1022 *)
-Definition T_ZERO : nat := 4855.      (* seconds: from here on the weight rounds to 0 *)
-Definition T_SUBNORMAL : nat := 4615. (* seconds: from here on the weight is below 2^-1022 *)
+    normal 2^-1022; [STALL_ZERO_NS] = 4855 s, [STALL_SUBNORMAL_NS] = 4615 s (model/Estimator.v) *)
+Definition T_ZERO : nat := 4855.
+Definition T_SUBNORMAL : nat := 4615.
 
 Lemma W_4855 : W (INR T_ZERO) < bpow radix2 (-1075).
 Proof. apply (W_lt_bpow T_ZERO 1075); [lia|]. vm_compute. reflexivity. Qed.
@@ -1144,9 +1144,6 @@ Lemma W_4615 : W (INR T_SUBNORMAL) < bpow radix2 (-1022).
 Proof. apply (W_lt_bpow T_SUBNORMAL 1022); [lia|]. vm_compute. reflexivity. Qed.
 Lemma W_4614 : bpow radix2 (-1022) < W (INR (pred T_SUBNORMAL)).
 Proof. apply (W_gt_bpow (pred T_SUBNORMAL) 1022); [lia|]. vm_compute. reflexivity. Qed.
-
-(** round-to-nearest-even in binary64 (with gradual underflow) *)
-Definition RN64 (x : R) : R := round radix2 (FLT_exp (-1074) 53) ZnearestE x.
 
 Lemma RN64_tiny : forall x, 0 < x < bpow radix2 (-1075) -> RN64 x = 0.
 Proof.
@@ -1162,13 +1159,18 @@ Qed.
 
 (** the underflow thresholds, for every stall length given in nanoseconds *)
 Theorem weight_underflow : forall t : N,
-  ((N.of_nat T_ZERO * 1000000000 <= t)%N ->
+  ((STALL_ZERO_NS <= t)%N ->
      0 < W (secs t) < bpow radix2 (-1075) /\ RN64 (W (secs t)) = 0) /\
-  ((t <= N.of_nat (pred T_ZERO) * 1000000000)%N -> bpow radix2 (-1075) < W (secs t)) /\
-  ((N.of_nat T_SUBNORMAL * 1000000000 <= t)%N -> W (secs t) < bpow radix2 (-1022)) /\
-  ((t <= N.of_nat (pred T_SUBNORMAL) * 1000000000)%N -> bpow radix2 (-1022) < W (secs t)).
+  ((t <= STALL_ZERO_NS - 1000000000)%N -> bpow radix2 (-1075) < W (secs t)) /\
+  ((STALL_SUBNORMAL_NS <= t)%N -> W (secs t) < bpow radix2 (-1022)) /\
+  ((t <= STALL_SUBNORMAL_NS - 1000000000)%N -> bpow radix2 (-1022) < W (secs t)).
 Proof.
-  intros t. repeat split.
+  intros t.
+  change STALL_ZERO_NS with (N.of_nat T_ZERO * 1000000000)%N.
+  change (N.of_nat T_ZERO * 1000000000 - 1000000000)%N with (N.of_nat (pred T_ZERO) * 1000000000)%N.
+  change STALL_SUBNORMAL_NS with (N.of_nat T_SUBNORMAL * 1000000000)%N.
+  change (N.of_nat T_SUBNORMAL * 1000000000 - 1000000000)%N with (N.of_nat (pred T_SUBNORMAL) * 1000000000)%N.
+  repeat split.
   - apply W_pos.
   - apply Rle_lt_trans with (2 := W_4855). apply W_decr. rewrite <- secs_of_seconds. now apply secs_le.
   - apply RN64_tiny. split; [apply W_pos|].
